@@ -7,6 +7,10 @@ import M3d.Lemmas.C01C2F
 import M3d.Lemmas.SoupFast
 import M3d.Lemmas.BitmapLift
 import M3d.Lemmas.McFan5
+import M3d.Lemmas.C01Search
+import M3d.Lemmas.RectMeshOrient
+import M3d.Lemmas.RectMeshClosed
+import M3d.Lemmas.MeshRect
 /-!
 # C01 — meshing always outputs a closed, consistently oriented manifold
 
@@ -327,6 +331,236 @@ example :
     let labC : Nat → Nat → Bool := fun x y => x == 1 && y == 1
     seenAll2 2 (2 + 0) labF labC 14 4 8 3 = false ∧ seenAll2 2 (2 + 8) labF labC 14 4 8 3 = true := by
   decide
+
+/-! ## The searched members of the two families
+
+`MarchingCubesSearch`, `MarchingCubesSearchFilter`, `MarchingCubesConj`, `MarchingCubesC2F` and the mesh of
+`MarchingCubesInterior` (all through `mcSearch` / `mcSearchPoint`, model3d/mc.go), `MarchingSquaresSearch(+Filter)`,
+`…Conj`, `…C2F` (`msSearch`, model2d/marching.go): the lattice mesh with every vertex moved ALONG ITS OWN LATTICE EDGE
+to the midpoint of the interval that is left after `iters` bisections (`M3d.Bisect.mcSearchPoint … .1`,
+`msSearchPoint`; whole-mesh models `M3d.C01Search.searchMesh / searchMesh2`).  The solid is an arbitrary function of
+the point — what it answers between the lattice points is not constrained in any way. -/
+
+open M3d.C01Search in
+/-- **The searched vertex lies STRICTLY inside its lattice edge** — for every containment function along the edge,
+every number of iterations: never on a lattice point.  (The last probe known to be inside — the second component,
+which `MarchingCubesInterior` reports in its `interior` map — does NOT have this property: it is the lattice corner
+itself when no probe was inside, see `interior_probe_collapses` below.) -/
+theorem search_vertex_strictly_inside_edge {K : Type} [Field K] [LinearOrder K] [IsStrictOrderedRing K]
+    (P : K → Bool) (lo hi : K) (iters : Nat) (h : lo < hi) :
+    lo < (M3d.Bisect.mcSearchPoint P lo hi iters).1 ∧ (M3d.Bisect.mcSearchPoint P lo hi iters).1 < hi :=
+  mcSearchPoint_strict P lo hi iters h
+
+open M3d.C01Search in
+/-- **Distinct lattice positions are searched to distinct points** (lattice `o + k·δ` per axis, `δ > 0`): a
+coordinate that is a lattice value is never strictly between two consecutive lattice values, and the open
+intervals of different lattice edges are disjoint.  So `mcSearch` never merges two vertices — no degenerate
+triangle, no edge used twice, no two fans pinched together. -/
+theorem search_positions_distinct {K : Type} [Field K] [LinearOrder K] [IsStrictOrderedRing K]
+    (o : K × K × K) (δ : K) (hδ : 0 < δ) (solid : K × K × K → Bool) (iters : Nat) :
+    Function.Injective (searchPos o δ solid iters) :=
+  searchPos_injective o δ hδ solid iters
+
+open M3d.C01Search in
+/-- **Every edge of a SEARCHED marching-cubes mesh is shared by exactly two triangles that traverse it in opposite
+directions, on every lattice, for every solid and every iteration count**: for every pair of points `p q` of
+space, the number of triangle sides of `searchMesh … (mcMesh mcTable nx ny nz lab)` running `p → q` equals the
+number running `q → p` and is at most one (`mc_edges_balanced_on_every_lattice` transported along the injective
+vertex map). -/
+theorem mc_search_edges_balanced_on_every_lattice {K : Type} [Field K] [LinearOrder K] [IsStrictOrderedRing K]
+    (nx ny nz : Nat) (lab : Nat → Nat → Nat → Bool)
+    (hb : ∀ x y z, (x = 0 ∨ y = 0 ∨ z = 0 ∨ nx ≤ x ∨ ny ≤ y ∨ nz ≤ z) → lab x y z = false)
+    (o : K × K × K) (δ : K) (hδ : 0 < δ) (solid : K × K × K → Bool) (iters : Nat) (p q : K × K × K) :
+    pecnt (searchMesh o δ solid iters (mcMesh mcTable nx ny nz lab)) (p, q) =
+      pecnt (searchMesh o δ solid iters (mcMesh mcTable nx ny nz lab)) (q, p) ∧
+    pecnt (searchMesh o δ solid iters (mcMesh mcTable nx ny nz lab)) (p, q) ≤ 1 := by
+  unfold searchMesh
+  refine balanced_map _ (searchPos_injective o δ hδ solid iters) _ (fun U V => ?_) p q
+  rw [← ecnt_eq_pecnt, ← ecnt_eq_pecnt]
+  exact mc_edges_balanced_on_every_lattice nx ny nz lab hb U V
+
+open M3d.C01Search in
+/-- … and **no vertex of a searched marching-cubes mesh pinches two sheets**: the link of every point of space in
+the searched mesh is empty or the edges of ONE simple closed cycle (`mc_fans_one_cycle_on_every_lattice`
+transported along the injective vertex map). -/
+theorem mc_search_fans_one_cycle_on_every_lattice {K : Type} [Field K] [LinearOrder K] [IsStrictOrderedRing K]
+    (nx ny nz : Nat) (lab : Nat → Nat → Nat → Bool)
+    (hb : ∀ x y z, (x = 0 ∨ y = 0 ∨ z = 0 ∨ nx ≤ x ∨ ny ≤ y ∨ nz ≤ z) → lab x y z = false)
+    (o : K × K × K) (δ : K) (hδ : 0 < δ) (solid : K × K × K → Bool) (iters : Nat) (p : K × K × K)
+    (hne : plink p (searchMesh o δ solid iters (mcMesh mcTable nx ny nz lab)) ≠ []) :
+    PFanCycle (plink p (searchMesh o δ solid iters (mcMesh mcTable nx ny nz lab))) := by
+  unfold searchMesh at hne ⊢
+  refine fans_map _ (searchPos_injective o δ hδ solid iters) _ (fun V hV => ?_) p hne
+  rw [← glink_eq_plink] at hV ⊢
+  exact (gfanCycle_iff _).1 (mc_fans_one_cycle_on_every_lattice nx ny nz lab hb V hV)
+
+open M3d.C01Search in
+/-- **A searched marching-squares outline is closed**: at every point of the plane as many segments of
+`searchMesh2 … (msMesh msTable nx ny lab)` start as end, and at most one (`ms_closed_on_every_lattice` transported;
+`np` — which end `msSearch` takes for the inside one, read off a segment normal — is arbitrary). -/
+theorem ms_search_closed_on_every_lattice {K : Type} [Field K] [LinearOrder K] [IsStrictOrderedRing K]
+    (nx ny : Nat) (lab : Nat → Nat → Bool)
+    (hb : ∀ x y, (x = 0 ∨ y = 0 ∨ nx ≤ x ∨ ny ≤ y) → lab x y = false)
+    (o : K × K) (δ : K) (hδ : 0 < δ) (solid : K × K → Bool) (np : GV2 → Bool) (iters : Nat) (p : K × K) :
+    pcnt false (searchMesh2 o δ solid np iters (msMesh msTable nx ny lab)) p =
+      pcnt true (searchMesh2 o δ solid np iters (msMesh msTable nx ny lab)) p ∧
+    pcnt false (searchMesh2 o δ solid np iters (msMesh msTable nx ny lab)) p ≤ 1 := by
+  unfold searchMesh2
+  refine closed_map _ (searchPos2_injective o δ hδ solid np iters) _ (fun v => ?_) p
+  rw [← cnt_eq_pcnt, ← cnt_eq_pcnt]
+  exact ms_closed_on_every_lattice nx ny lab hb v
+
+open M3d.C01Search in
+/-- **`MarchingCubesConj`**: the searched mesh of the transformed solid mapped back, vertex by vertex, through the
+inverse of the joined transform (`mesh.Transform(joined.Inverse())`).  For EVERY injective map `g` of space (every
+inverse of a `Transform` is one) the result is still edge-balanced at every pair of points … -/
+theorem mc_conj_edges_balanced_on_every_lattice {K : Type} [Field K] [LinearOrder K] [IsStrictOrderedRing K]
+    (nx ny nz : Nat) (lab : Nat → Nat → Nat → Bool)
+    (hb : ∀ x y z, (x = 0 ∨ y = 0 ∨ z = 0 ∨ nx ≤ x ∨ ny ≤ y ∨ nz ≤ z) → lab x y z = false)
+    (o : K × K × K) (δ : K) (hδ : 0 < δ) (solid : K × K × K → Bool) (iters : Nat)
+    (g : K × K × K → K × K × K) (hg : Function.Injective g) (p q : K × K × K) :
+    pecnt ((searchMesh o δ solid iters (mcMesh mcTable nx ny nz lab)).map (map3 g)) (p, q) =
+      pecnt ((searchMesh o δ solid iters (mcMesh mcTable nx ny nz lab)).map (map3 g)) (q, p) ∧
+    pecnt ((searchMesh o δ solid iters (mcMesh mcTable nx ny nz lab)).map (map3 g)) (p, q) ≤ 1 :=
+  balanced_map g hg _ (mc_search_edges_balanced_on_every_lattice nx ny nz lab hb o δ hδ solid iters) p q
+
+open M3d.C01Search in
+/-- … and every vertex fan is still one cycle.  (Whether the normals still point outwards depends on `g`: an
+orientation-reversing transform returns the surface inside out — documented as "applies the inverse to the resulting
+mesh" —, so the correspondence only generates orientation-preserving transforms.) -/
+theorem mc_conj_fans_one_cycle_on_every_lattice {K : Type} [Field K] [LinearOrder K] [IsStrictOrderedRing K]
+    (nx ny nz : Nat) (lab : Nat → Nat → Nat → Bool)
+    (hb : ∀ x y z, (x = 0 ∨ y = 0 ∨ z = 0 ∨ nx ≤ x ∨ ny ≤ y ∨ nz ≤ z) → lab x y z = false)
+    (o : K × K × K) (δ : K) (hδ : 0 < δ) (solid : K × K × K → Bool) (iters : Nat)
+    (g : K × K × K → K × K × K) (hg : Function.Injective g) (p : K × K × K)
+    (hne : plink p ((searchMesh o δ solid iters (mcMesh mcTable nx ny nz lab)).map (map3 g)) ≠ []) :
+    PFanCycle (plink p ((searchMesh o δ solid iters (mcMesh mcTable nx ny nz lab)).map (map3 g))) :=
+  fans_map g hg _ (mc_search_fans_one_cycle_on_every_lattice nx ny nz lab hb o δ hδ solid iters) p hne
+
+open M3d.C01Search in
+/-- **`MarchingSquaresConj`** stays a closed outline under every injective map back. -/
+theorem ms_conj_closed_on_every_lattice {K : Type} [Field K] [LinearOrder K] [IsStrictOrderedRing K]
+    (nx ny : Nat) (lab : Nat → Nat → Bool)
+    (hb : ∀ x y, (x = 0 ∨ y = 0 ∨ nx ≤ x ∨ ny ≤ y) → lab x y = false)
+    (o : K × K) (δ : K) (hδ : 0 < δ) (solid : K × K → Bool) (np : GV2 → Bool) (iters : Nat)
+    (g : K × K → K × K) (hg : Function.Injective g) (p : K × K) :
+    pcnt false ((searchMesh2 o δ solid np iters (msMesh msTable nx ny lab)).map (map2 g)) p =
+      pcnt true ((searchMesh2 o δ solid np iters (msMesh msTable nx ny lab)).map (map2 g)) p ∧
+    pcnt false ((searchMesh2 o δ solid np iters (msMesh msTable nx ny lab)).map (map2 g)) p ≤ 1 :=
+  closed_map g hg _ (ms_search_closed_on_every_lattice nx ny lab hb o δ hδ solid np iters) p
+
+open M3d.C01Search in
+/-- Non-vacuity (and the reason the theorems above are about the FIRST component of `mcSearchPoint`): for the solid
+that contains the lattice origin and nothing else of the two lattice edges leaving it along `x` and `y`, the
+interior probes of these two different edges are the same point — the origin — for every iteration count; a mesh
+built from the probes would have merged the two vertices. -/
+theorem interior_probe_collapses {K : Type} [Field K] [LinearOrder K] [IsStrictOrderedRing K]
+    (o : K × K × K) (δ : K) (hδ : 0 < δ) (iters : Nat) :
+    interiorPos o δ (fun p => decide (p = o)) iters (1, 0, 0) = interiorPos o δ (fun p => decide (p = o)) iters (0, 1, 0) ∧
+    searchPos o δ (fun p => decide (p = o)) iters (1, 0, 0) ≠ searchPos o δ (fun p => decide (p = o)) iters (0, 1, 0) :=
+  ⟨interiorPos_collapse o δ hδ iters, fun h => by
+    have := searchPos_injective o δ hδ (fun p => decide (p = o)) iters h
+    simp at this⟩
+
+/-! ## Box sets: the face cancellation of `RectSet.ExactMesh`
+
+`RectSet.Mesh()` = `ExactMesh()` + the singular edge / vertex repair.  `ExactMesh` lists the six quads of every stored
+box and keeps a quad iff its key (`quadMinMax`) was seen an odd number of times (`M3d.RectMesh.exactQuads`, compared
+with the real `ExactMesh()` triangle-for-triangle by the kind `rsmesh`).  That this removes exactly the interior faces
+rests on the representation invariant of the set — the stored boxes are distinct CELLS of one grid —, which C04 proves
+for every history of `Add / Remove / AddRectSet / RemoveRectSet` (`M3d.RectSet.hinv`, `M3d.C04.rectset_history_aligned`).
+A set whose boxes were not cut along the receiver's planes (what `AddRectSet` would store if it split the incoming
+boxes along their own set's grid) breaks it: overlapping boxes keep their interior faces. -/
+
+section RectMesh
+open M3d.RectSet M3d.RectMesh
+variable {K : Type} [LinearOrder K] [OfNat K 0]
+
+/-- Every history whose boxes have positive extent stores boxes of positive extent. -/
+theorem rectset_history_positive (h : Hist K) (hb : ∀ r ∈ h.boxes, Pos r) : ∀ q ∈ h.eval.rects, Pos q :=
+  hist_pos h hb
+
+/-- **Face cancellation, exactly, after every history** (`NewRectSet`, then any finite sequence of `Add`, `Remove`,
+`AddRectSet`, `RemoveRectSet` of boxes of positive extent, argument sets built the same way): a quad is left in
+`uniqueQuads` iff it is a face of a stored box that NO OTHER stored box has — the loop never drops a face that only
+one box has, never keeps one that two have, and (three boxes cannot have the same face) that is all. -/
+theorem exactmesh_face_kept_iff_unshared (h : Hist K) (hb : ∀ r ∈ h.boxes, Pos r) (q : Quad K) :
+    q ∈ exactQuads h.eval.rects ↔
+      ∃ c ∈ h.eval.rects, q ∈ boxQuads c ∧
+        ∀ c' ∈ h.eval.rects, c' ≠ c → quadKey q ∉ (boxQuads c').map quadKey :=
+  exactQuads_iff (hinv h).inv (hist_pos h hb) q
+
+/-- … and a face that two different stored boxes have is the face BETWEEN two adjacent cells: the boxes have the same
+extent on the other two axes and the max face of one is the min face of the other — an interior face of the union.
+So the kept quads are the faces of stored cells whose neighbour across the face is not stored: the boundary. -/
+theorem exactmesh_shared_face_is_between_adjacent_cells (h : Hist K) (hb : ∀ r ∈ h.boxes, Pos r)
+    {c c' : Rect K} (hc : c ∈ h.eval.rects) (hc' : c' ∈ h.eval.rects) (hne : c ≠ c') {k : V3 K × V3 K}
+    (hk : k ∈ (boxQuads c).map quadKey) (hk' : k ∈ (boxQuads c').map quadKey) :
+    ∃ a, a < 3 ∧ (∀ b, b < 3 → b ≠ a → c.lo.get b = c'.lo.get b ∧ c.hi.get b = c'.hi.get b) ∧
+      ((c.hi.get a = c'.lo.get a ∧ k = faceKey c a true ∧ k = faceKey c' a false) ∨
+       (c.lo.get a = c'.hi.get a ∧ k = faceKey c a false ∧ k = faceKey c' a true)) :=
+  shared_face_adjacent (hinv h).inv (hist_pos h hb) hc hc' hne hk hk'
+
+/-- **`ExactMesh()` is a closed surface after every history**: among its triangles the number of sides running
+`p → q` equals the number running `q → p`, for every pair of points (`pecnt`, the directed-side count of
+`M3d.C01Search`).  Proof: the triangles of ALL listed quads are balanced box by box (the surface of one box,
+kernel-checked on the abstract cube, `absSides_balanced`); the quads the loop drops come in pairs, the max face of a
+cell and the min face of its neighbour, and the second is the first with its vertex order reversed on the same
+diagonal (`quadOf_adjacent`, `cntD_qrev`), so the dropped triangles are balanced among themselves
+(`dropped_closed`); the kept ones are the difference.  Along an edge where two boxes touch diagonally the count
+is 2 in each direction: closed, but singular — the edges (and vertices) `Mesh()` then repairs
+(`FixSingularEdges`, `FixSingularVertices`; judged per instance, kinds `rectset` / `rectops`). -/
+theorem exactmesh_is_closed (h : Hist K) (hb : ∀ r ∈ h.boxes, Pos r) (p q : V3 K) :
+    M3d.C01Search.pecnt (exactMesh h.eval.rects) (p, q) = M3d.C01Search.pecnt (exactMesh h.eval.rects) (q, p) :=
+  exactMesh_balanced (hinv h).inv (hist_pos h hb) (p, q)
+
+/-- Non-vacuity: two unit boxes added side by side: 12 quads listed, the common face cancelled, 10 left = 20
+triangles; and what the invariant is needed for: the same loop over two OVERLAPPING boxes that were not cut
+along each other's planes keeps all 12 quads, interior ones included. -/
+example :
+    let h : Hist Int := .add (.add .new ⟨⟨0, 0, 0⟩, ⟨1, 1, 1⟩⟩) ⟨⟨1, 0, 0⟩, ⟨2, 1, 1⟩⟩
+    (exactQuads h.eval.rects).length = 10 ∧ (exactMesh h.eval.rects).length = 20 ∧
+    (exactQuads [(⟨⟨0, 0, 0⟩, ⟨2, 2, 2⟩⟩ : Rect Int), ⟨⟨1, 0, 0⟩, ⟨3, 2, 2⟩⟩]).length = 12 := by
+  decide +kernel
+
+end RectMesh
+
+/-- **The quads `ExactMesh` lists face away from their box** (so the kept ones, being faces of stored cells whose
+neighbour is not stored, have their normals pointing from the contained to the excluded side): for a box of positive
+extent, both triangles `Mesh.AddQuad` makes of the quad of face `(axis, side)` have a normal along `axis` only, positive
+on the max side, negative on the min side.  Over every linear ordered field. -/
+theorem exactmesh_quads_face_outward {K : Type} [Field K] [LinearOrder K] [IsStrictOrderedRing K]
+    (r : M3d.RectSet.Rect K) (h : M3d.RectMesh.Pos r) :
+    ∀ p ∈ (M3d.RectMesh.boxQuads r).zip M3d.RectMesh.faces, ∀ t ∈ M3d.RectMesh.quadTris p.1,
+      M3d.RectMesh.OutwardOn p.2.1 p.2.2 t :=
+  M3d.RectMesh.boxQuads_outward r h
+
+/-! ## The box primitive (`NewMeshRect`, 3-D and 2-D) — for ALL valid parameters
+
+`model3d.NewMeshRect(min, max)` adds, with `AddQuad`, the same six quads `ExactMesh` lists for one box
+(`M3d.RectMesh.meshRect`, compared with the real triangle list by the kind `meshrect`); `model2d.NewMeshRect` the four
+segments `min → (min.X, max.Y) → max → (max.X, min.Y) → min` (`meshRect2`, kind `meshrect2`). -/
+
+section MeshRect
+open M3d.RectSet M3d.RectMesh M3d.C01Search
+variable {K : Type} [LinearOrder K] [OfNat K 0]
+
+/-- **`NewMeshRect` is a closed manifold for every box of positive extent**: every directed edge at most once and
+its reverse exactly as often, at every pair of points; the link of every point is empty or ONE simple cycle.
+(Kernel-checked on the abstract cube `Bool³`, transported along the corner map, which is injective for positive
+extent.)  Orientation: `exactmesh_quads_face_outward` — the same quads. -/
+theorem mesh_rect_is_closed_manifold (r : Rect K) (h : Pos r) :
+    (∀ p q, pecnt (meshRect r) (p, q) = pecnt (meshRect r) (q, p) ∧ pecnt (meshRect r) (p, q) ≤ 1) ∧
+    (∀ p, plink p (meshRect r) ≠ [] → PFanCycle (plink p (meshRect r))) ∧ (meshRect r).length = 12 :=
+  ⟨meshRect_balanced r h, meshRect_fans r h, rfl⟩
+
+/-- **`model2d.NewMeshRect` is a closed outline** for `min < max` on both axes: at every point as many segments
+start as end, and at most one. -/
+theorem mesh_rect2_is_closed (lo hi : K × K) (hx : lo.1 < hi.1) (hy : lo.2 < hi.2) (p : K × K) :
+    pcnt false (meshRect2 lo hi) p = pcnt true (meshRect2 lo hi) p ∧ pcnt false (meshRect2 lo hi) p ≤ 1 :=
+  meshRect2_closed lo hi hx hy p
+
+end MeshRect
 
 /-! ## The deciders the driver runs on real output meshes
 
